@@ -55,6 +55,17 @@ type built struct {
 	Expect string
 	// Uneval: some condition cannot be evaluated (error traces about it are expected)
 	Uneval bool
+	// Results: values every upstream task stores with its answer (declared
+	// results) - conditions of kind "result" read them
+	Results map[string]any
+}
+
+func answerUp(tt bpmn.TaskTrace, bt *built) {
+	if len(bt.Results) > 0 {
+		tt.Do(bpmn.DoWithResults(bt.Results))
+		return
+	}
+	tt.Do()
 }
 
 func build(d descriptor) *built {
@@ -129,6 +140,20 @@ func build(d descriptor) *built {
 			} else {
 				f.Cond = &gen.Cond{Op: "lt", Var: v, K: 1}
 			}
+		case "result":
+			// a float the upstream task's answer stores, tiny but not zero: the
+			// condition "> 0" holds for the value as stored, not for a rounded one
+			v := fmt.Sprintf("r%d", ci)
+			bt.Vars[v] = float64(1)
+			if bt.Results == nil {
+				bt.Results = map[string]any{}
+			}
+			if truth {
+				bt.Results[v] = []float64{4e-07, 3e-09, 0.0000001234}[ci%3]
+			} else {
+				bt.Results[v] = []float64{-4e-07, -3e-09, -0.0000001234}[ci%3]
+			}
+			f.Cond = &gen.Cond{Op: "gt", Var: v, K: 0}
 		case "compound":
 			v := fmt.Sprintf("c%d", ci)
 			w := fmt.Sprintf("k%d", ci)
@@ -166,6 +191,16 @@ func build(d descriptor) *built {
 	bt.Expect = firstTrue
 	if bt.Expect == "" {
 		bt.Expect = bt.DefTask
+	}
+	if len(bt.Results) > 0 {
+		names := make([]string, 0, len(bt.Results))
+		for k := range bt.Results {
+			names = append(names, k)
+		}
+		sort.Strings(names)
+		for _, id := range bt.Up {
+			b.G.Node(id).Results = names
+		}
 	}
 	bt.Prog = &gen.Program{G: b.G, DefaultLang: d.Lang, DeclSeed: d.DeclSeed}
 	return bt
@@ -259,7 +294,7 @@ func runCase(d descriptor) *result {
 		var wg sync.WaitGroup
 		for _, tt := range ups {
 			wg.Add(1)
-			go func(tt bpmn.TaskTrace) { defer wg.Done(); tt.Do() }(tt)
+			go func(tt bpmn.TaskTrace) { defer wg.Done(); answerUp(tt, bt) }(tt)
 		}
 		wg.Wait()
 		if _, err := in.Quiesce(); err != nil {
@@ -268,7 +303,7 @@ func runCase(d descriptor) *result {
 		}
 	} else {
 		for _, tt := range ups {
-			tt.Do()
+			answerUp(tt, bt)
 			if _, err := in.Quiesce(); err != nil {
 				r.Inconcl = err.Error()
 				return r
@@ -480,7 +515,7 @@ func TestC04Random(t *testing.T) {
 		if d.DefPos >= 0 {
 			d.DefCond = rapid.SampledFrom([]string{"", "", "false", "true"}).Draw(rt, "defCond")
 		}
-		kinds := []string{"var", "cmp", "compound", "informal", "var", "cmp", "unevaluable"}
+		kinds := []string{"var", "cmp", "compound", "informal", "var", "cmp", "unevaluable", "result"}
 		if d.Lang == "expr" {
 			// (the repository's own XPath getDataObject test is skipped as "doesn't quite work yet")
 			kinds = append(kinds, "dataobject")
